@@ -173,3 +173,39 @@ func TestLostUpdate(t *testing.T) {
 		t.Fatalf("got %s", keys(got))
 	}
 }
+
+func TestExploreAllSmall(t *testing.T) {
+	// three threads, two operations each on two channels: compare the outcome set of the unbounded pruned search
+	// with the deviation-bounded search at a bound that is complete for this program
+	body := func(log func(string)) {
+		a, b := mcrt.Make[int](1, "a"), mcrt.Make[int](0, "b")
+		var wg mcrt.WaitGroup
+		wg.Add(2)
+		mcrt.Go("p", func() { a.Send(1); b.Send(10); wg.Done() })
+		mcrt.Go("q", func() { b.Send(20); a.Send(2); wg.Done() })
+		x := b.Recv()
+		y := a.Recv()
+		z := b.Recv()
+		w := a.Recv()
+		wg.Wait()
+		log(fmt.Sprint(x, y, z, w))
+	}
+	want, _ := outcomes(t, 6, body)
+	exec := func(ch mcrt.Chooser, cfg mcrt.Config) *Outcome {
+		var obs []string
+		res := mcrt.Run(cfg, ch, func() { body(func(s string) { obs = append(obs, s) }) })
+		o := strings.Join(obs, ",")
+		if res.Verdict != "" && res.Verdict != mcrt.VPruned {
+			o += "!" + res.Verdict
+		}
+		return &Outcome{Res: res, Obs: o}
+	}
+	st := ExploreAll(exec, Options{}, 0)
+	if st.Nondet != "" {
+		t.Fatal(st.Nondet)
+	}
+	if keys(st.Distinct) != keys(want) {
+		t.Fatalf("unbounded pruned search saw %s, bounded search %s", keys(st.Distinct), keys(want))
+	}
+	t.Logf("executions=%d pruned=%d states=%d outcomes=%s", st.Execs, st.Pruned, st.StatesSeen, keys(st.Distinct))
+}
